@@ -135,12 +135,22 @@ theorem data_of_get_eq {fs fs' : FS} {p : Path} (h : fs'.get p = fs.get p) : fs'
   simp [FS.data, h]
 
 /-- the write path of handlePUT after some events `pre` that kept the data -/
+theorem eff_valid (p : PutIn)
+    (hv : ∀ w ∈ p.attempts, w.h = p.h ∧ (w.rend = .eof → w.chunks.flatten = p.body)) :
+    ∀ w ∈ p.effAttempts, w.h = p.h ∧ (w.rend = .eof → w.chunks.flatten = p.body) := by
+  intro w hw
+  unfold PutIn.effAttempts at hw
+  split at hw
+  · simp at hw
+  · exact hv w hw
+
 theorem write_path_atomic (p : PutIn)
-    (hv : ∀ w ∈ p.attempts, w.h = p.h ∧ (w.rend = .eof → w.chunks.flatten = p.body))
+    (hv0 : ∀ w ∈ p.attempts, w.h = p.h ∧ (w.rend = .eof → w.chunks.flatten = p.body))
     (fs : FS) (k : Nat) :
-    (run fs ((attemptsEvs p.attempts).1.take k)).data (blockPath p.h) = fs.data (blockPath p.h) ∨
-    (run fs ((attemptsEvs p.attempts).1.take k)).data (blockPath p.h) = some p.body := by
-  rcases attempts_crash_atomic p.h p.attempts (fun w hw => (hv w hw).1) fs k with h1 | ⟨w, hw, h1, h2, _, _⟩
+    (run fs ((attemptsEvs p.effAttempts).1.take k)).data (blockPath p.h) = fs.data (blockPath p.h) ∨
+    (run fs ((attemptsEvs p.effAttempts).1.take k)).data (blockPath p.h) = some p.body := by
+  have hv := eff_valid p hv0
+  rcases attempts_crash_atomic p.h p.effAttempts (fun w hw => (hv w hw).1) fs k with h1 | ⟨w, hw, h1, h2, _, _⟩
   · exact Or.inl (data_of_get_eq h1)
   · right
     simp [FS.data, h1, (hv w hw).2 h2]
@@ -209,19 +219,21 @@ theorem putCore_ack (hash : Bytes → Name) (fs : FS) (p : PutIn)
     (hv : ∀ w ∈ p.attempts, w.h = p.h ∧ (w.rend = .eof → w.chunks.flatten = p.body))
     (h : (putCore hash fs p).2 = .ok200) :
     (run fs (putCore hash fs p).1).data (blockPath p.h) = some p.body := by
+  have hv' := eff_valid p hv
   have wr : ∀ (pre : List Ev), (if p.cancelled = true then Resp.disconnect
-        else if (attemptsEvs p.attempts).2 = true then Resp.ok200 else Resp.fail) = Resp.ok200 →
-      (run fs (pre ++ (attemptsEvs p.attempts).1)).data (blockPath p.h) = some p.body := by
+        else if (attemptsEvs p.effAttempts).2 = true then Resp.ok200
+        else if p.volumeFull = true then Resp.full else Resp.fail) = Resp.ok200 →
+      (run fs (pre ++ (attemptsEvs p.effAttempts).1)).data (blockPath p.h) = some p.body := by
     intro pre hr
-    have hs : (attemptsEvs p.attempts).2 = true := by
+    have hs : (attemptsEvs p.effAttempts).2 = true := by
       by_cases hc : p.cancelled = true
       · simp [hc] at hr
-      · by_cases hs : (attemptsEvs p.attempts).2 = true
+      · by_cases hs : (attemptsEvs p.effAttempts).2 = true
         · exact hs
-        · simp [hc, hs] at hr
-    obtain ⟨w, hw, h1, h2⟩ := attempts_success p.h p.attempts (fun w hw => (hv w hw).1) (run fs pre) hs
+        · by_cases hf : p.volumeFull = true <;> simp [hc, hs, hf] at hr
+    obtain ⟨w, hw, h1, h2⟩ := attempts_success p.h p.effAttempts (fun w hw => (hv' w hw).1) (run fs pre) hs
     rw [run_append]
-    simp [FS.data, h1, (hv w hw).2 h2]
+    simp [FS.data, h1, (hv' w hw).2 h2]
   generalize hr : putCore hash fs p = r at h ⊢
   unfold putCore at hr
   simp only at hr
